@@ -121,3 +121,29 @@ M("C19", "twin-self-counter", "surrogate.py", "self.problem.surrogate.predict_co
 M("C19", "twin-hasattr", "surrogate.py", 'if self.trained and "predict" in dir(self.problem):', 'if self.trained and hasattr(self.problem, "predict"):', "H")
 M("C19", "twin-merged-if", "surrogate.py", "        if self.train_step != -1:\n            if self.eval_counter % self.train_step == 0:\n                # init default regressor\n                if self.regressor is None:\n                    self.init_default_regressor()\n\n                # train model\n                self.train()\n", "        if self.train_step != -1 and self.eval_counter % self.train_step == 0:\n            if self.regressor is None:\n                self.init_default_regressor()\n            self.train()\n", "H")
 M("C19", "twin-eval-temp", "surrogate.py", "    def evaluate(self, individual):\n        self.eval_counter += 1\n        return self.problem.evaluate(individual)", "    def evaluate(self, individual):\n        result = self.problem.evaluate(individual)\n        self.eval_counter += 1\n        return result", "H")
+
+# ---------------------------------------------------------------- C06
+M("C06", "range-4", "job.py", "for i in range(5):", "for i in range(4):")
+M("C06", "range-6", "job.py", "for i in range(5):", "for i in range(6):")
+M("C06", "except-exception", "job.py", "except (TimeoutError, RuntimeError) as e:", "except Exception as e:")
+M("C06", "except-valueerror-too", "job.py", "except (TimeoutError, RuntimeError) as e:", "except (TimeoutError, RuntimeError, ValueError) as e:")
+M("C06", "except-only-runtime", "job.py", "except (TimeoutError, RuntimeError) as e:", "except RuntimeError as e:")
+M("C06", "swallow-bare", "job.py", "                print(\"Job: unexpected error:\", sys.exc_info()[0])\n                raise\n", "                print(\"Job: unexpected error:\", sys.exc_info()[0])\n")
+M("C06", "failed-after-reroll", "job.py", "                failed_individual = Individual(individual.vector)\n                failed_individual.state = individual.State.FAILED\n                individual.features[\"feasible\"] = False  # TODO: genetic algorithms uses this information, i dont know the correct solution\n                self.problem.failed.append(failed_individual)\n                # in the case of failure generate new random individual\n                # TODO: create different strategies\n                individual.vector = VectorAndNumbers.gen_vector(self.problem.parameters)\n",
+  "                individual.features[\"feasible\"] = False\n                individual.vector = VectorAndNumbers.gen_vector(self.problem.parameters)\n                failed_individual = Individual(individual.vector)\n                failed_individual.state = individual.State.FAILED\n                self.problem.failed.append(failed_individual)\n")
+M("C06", "failed-alias", "job.py", "self.problem.failed.append(failed_individual)", "self.problem.failed.append(individual)")
+M("C06", "no-reroll", "job.py", "                individual.vector = VectorAndNumbers.gen_vector(self.problem.parameters)\n", "")
+M("C06", "not-logged", "job.py", "                self.problem.failed.append(failed_individual)\n", "")
+M("C06", "evaluated-before-call", "job.py", "            try:\n                costs = self.problem.surrogate.evaluate(individual)\n", "            try:\n                individual.state = individual.State.EVALUATED\n                costs = self.problem.surrogate.evaluate(individual)\n")
+M("C06", "break-for-continue", "job.py", "                individual.state = individual.State.EMPTY\n                continue\n", "                individual.state = individual.State.EMPTY\n                break\n")
+M("C06", "return-after-failure", "job.py", "                individual.state = individual.State.EMPTY\n                continue\n", "                individual.state = individual.State.EMPTY\n                return\n")
+M("C06", "no-final-raise", "job.py", "        raise RuntimeError(\"To many failures has appeared.\")\n", "        print(\"To many failures has appeared.\")\n")
+M("C06", "final-raise-valueerror", "job.py", "        raise RuntimeError(\"To many failures has appeared.\")", "        raise ValueError(\"To many failures has appeared.\")")
+M("C06", "handler-marks-evaluated", "job.py", "                individual.state = individual.State.EMPTY\n                continue\n", "                individual.state = individual.State.EVALUATED\n                continue\n")
+M("C06", "reroll-after-success", "job.py", "                individual.features[\"finish_time\"] = time.time()\n", "                individual.features[\"finish_time\"] = time.time()\n                individual.vector = VectorAndNumbers.gen_vector(self.problem.parameters)\n")
+M("C06", "shadowing-handler", "job.py", "            except (TimeoutError, RuntimeError) as e:\n", "            except Exception:\n                raise\n            except (TimeoutError, RuntimeError) as e:\n")
+# twins
+M("C06", "twin-two-handlers", "job.py", "            except (TimeoutError, RuntimeError) as e:\n                print(\"Job: error:\", e)\n                failed_individual = Individual(individual.vector)\n                failed_individual.state = individual.State.FAILED\n                individual.features[\"feasible\"] = False  # TODO: genetic algorithms uses this information, i dont know the correct solution\n                self.problem.failed.append(failed_individual)\n                # in the case of failure generate new random individual\n                # TODO: create different strategies\n                individual.vector = VectorAndNumbers.gen_vector(self.problem.parameters)\n                individual.state = individual.State.EMPTY\n                continue\n",
+  "            except TimeoutError as e:\n                self.problem.failed.append(Individual(individual.vector))\n                individual.vector = VectorAndNumbers.gen_vector(self.problem.parameters)\n                individual.state = individual.State.EMPTY\n                continue\n            except RuntimeError as e:\n                self.problem.failed.append(Individual(individual.vector))\n                individual.vector = VectorAndNumbers.gen_vector(self.problem.parameters)\n                individual.state = individual.State.EMPTY\n                continue\n", "H")
+M("C06", "twin-no-bare", "job.py", "            except:\n                print(\"Job: unexpected error:\", sys.exc_info()[0])\n                raise\n", "", "H")
+M("C06", "twin-const-bound", "job.py", "for i in range(5):", "for attempt in range(0, 5):", "H")
